@@ -368,13 +368,17 @@ fn scratch_dir(tag: &str) -> PathBuf {
 }
 
 /// Generates the files of one configuration and compares every one with the dump.
-fn check_cfg(cfg: &Cfg, dir: &Path, prefix: &str, files_out: &mut usize) -> Result<bool, String> {
+fn check_cfg(cfg: &Cfg, dir: &Path, prefix: &str, files_out: &mut usize, clean_first: bool) -> Result<bool, String> {
     let sc = match catch(|| cfg.build_uncached()) {
         Ok(Ok(sc)) => sc,
         _ => return Ok(false),
     };
-    for e in std::fs::read_dir(dir).map_err(|e| e.to_string())?.flatten() {
-        let _ = std::fs::remove_file(e.path());
+    // Every other configuration is exported into the folder as the previous export left it (same
+    // prefix, often the same mode names): an export must replace older files completely.
+    if clean_first {
+        for e in std::fs::read_dir(dir).map_err(|e| e.to_string())?.flatten() {
+            let _ = std::fs::remove_file(e.path());
+        }
     }
     match catch(|| sc.generate_compiled_automata_as_dot(prefix, dir)) {
         Err(p) => return Err(format!("generate_compiled_automata_as_dot panicked: {p}")),
@@ -386,8 +390,11 @@ fn check_cfg(cfg: &Cfg, dir: &Path, prefix: &str, files_out: &mut usize) -> Resu
     names.sort();
     let mut want: Vec<String> = cfg.modes.iter().map(|m| format!("{prefix}_{}.dot", m.name)).collect();
     want.sort();
-    if names != want {
+    if clean_first && names != want {
         return Err(format!("files written {names:?}, expected one per mode: {want:?}"));
+    }
+    if let Some(missing) = want.iter().find(|w| !names.contains(w)) {
+        return Err(format!("no file {missing:?} was written (files in the folder: {} )", names.len()));
     }
     for (mi, m) in cfg.modes.iter().enumerate() {
         let path = dir.join(format!("{prefix}_{}.dot", m.name));
@@ -447,6 +454,18 @@ pub fn run(tier: Tier) -> ! {
     for (i, t) in tricky.iter().enumerate() {
         cfgs.push(("labels".into(), Cfg::single(vec![CPat::new(t, i), CPat::new("x", 100).with_la(i % 2 == 0, t)])));
     }
+    // long texts: k ASCII letters followed by a 2-, 3- or 4-byte character (titles, labels and file
+    // names are built from pattern text and mode names), long multi-byte mode names
+    for ch in ["é", "あ", "😀"] {
+        for k in (0..=140).step_by(1) {
+            if k % 3 == ch.len() % 3 || k > 60 && k < 100 {
+                cfgs.push(("long-texts".into(), Cfg::single(vec![CPat::new(&format!("{}{ch}", "a".repeat(k)), 1)])));
+            }
+        }
+    }
+    for k in [30usize, 39, 40, 41, 63, 64, 65, 79, 80, 81, 90] {
+        cfgs.push(("long-texts".into(), Cfg { modes: vec![CMode { name: "Ä".repeat(k), pats: vec![CPat::new("[aé]+", 0)], transitions: vec![] }, CMode { name: format!("{}€", "b".repeat(k)), pats: vec![CPat::new("é", 0)], transitions: vec![] }] }));
+    }
     // dots in mode names (and in the prefix, see below)
     cfgs.push(("names".into(), Cfg { modes: vec![CMode { name: "STRING.ESCAPE".into(), pats: vec![CPat::new("ab", 1)], transitions: vec![] }, CMode { name: "STRING".into(), pats: vec![CPat::new("x", 2)], transitions: vec![] }, CMode { name: "a.b.c".into(), pats: vec![CPat::new("y+", 3)], transitions: vec![] }, CMode { name: ".hidden".into(), pats: vec![CPat::new("z", 4)], transitions: vec![] }] }));
     cfgs.push(("labels".into(), Cfg { modes: vec![CMode { name: "N".repeat(200), pats: vec![CPat::new("a", 0)], transitions: vec![] }] }));
@@ -462,7 +481,7 @@ pub fn run(tier: Tier) -> ! {
         acc.cfgs += 1;
         // prefixes with a dot, a space and non-ASCII characters for multi-mode configurations
         let prefix = if cfg.modes.len() > 1 { ["P.v2", "pre fix", "Ünï", "P"][i % 4] } else { "P" };
-        match check_cfg(cfg, dir.as_ref().unwrap(), prefix, &mut acc.files) {
+        match check_cfg(cfg, dir.as_ref().unwrap(), prefix, &mut acc.files, i % 2 == 0) {
             Ok(built) => {
                 if built && cfg.has_lookahead() {
                     acc.nontrivial += 1;
@@ -552,6 +571,6 @@ pub fn run(tier: Tier) -> ! {
     run.finish(
         "exploration",
         cov,
-        &["no Graphviz binary exists in the sandbox; the parser implements the quoting rules of the DOT grammar (\\\" and \\\\ inside quoted strings)", "the text of a class in an edge label is not compared, only its '(C#<id>)' suffix, source and target", "mode names are valid file names and distinct"],
+        &["no Graphviz binary exists in the sandbox; the parser implements the quoting rules of the DOT grammar (\\\" and \\\\ inside quoted strings)", "the text of a class in an edge label is not compared, only its '(C#<id>)' suffix, source and target", "mode names are valid file names and distinct", "every other configuration is exported into the folder as the previous export left it (the export must replace older files), the others into an emptied folder (exact file set)"],
     )
 }
